@@ -73,7 +73,14 @@ func ClearTextPassword(validate func(ctx context.Context, database, username, pa
 		}
 
 		if !valid {
-			return ctx, ErrorCode(writer, pgerror.WithCode(errors.New("invalid username/password"), codes.InvalidPassword))
+			err = pgerror.WithCode(errors.New("invalid username/password"), codes.InvalidPassword)
+			werr := ErrorCode(writer, err)
+			if werr != nil {
+				return ctx, werr
+			}
+
+			// NOTE: the connection has not been authenticated and must be closed.
+			return ctx, err
 		}
 
 		return ctx, writeAuthType(writer, authOK)
